@@ -55,9 +55,13 @@ def judge(res, prog, c, label):
     with recording_platform():
         p1 = to_openql(c)
         p2 = to_openql(c)
+        p3 = to_openql(c, circuit_id='verif_id')
+        p4 = to_openql(c, circuit_id='verif_id')
     obs = p1.linear()
     if p1.names() != p2.names() or p1.linear() != p2.linear():
         res.fail('C15-nondeterministic', '%s %r: exporting twice gives different names or programs: %r vs %r' % (label, prog, p1.names(), p2.names()))
+    if p3.names() != p4.names() or p3.linear() != obs or p4.linear() != obs:
+        res.fail('C15-nondeterministic-id', '%s %r: exporting twice with the same circuit_id gives different names or programs: %r vs %r' % (label, prog, p3.names(), p4.names()))
     if not same(obs, ref):
         alt = translate_block(c.circuit_structure, blocks_first=True)
         if same(obs, alt):
